@@ -225,6 +225,23 @@ func nonces(ts []ATx) []int {
 	return out
 }
 
+// CheckLimitsAfterAdd: a successful add that is not a replacement runs the enforcement for the sender's queue and for the
+// two pool-wide limits (judged when the pool was not full, so that no discard re-queued another account's followers).
+func CheckLimitsAfterAdd(pre, post *AState, cfg ACfg, t ATx, res string) []clauseFail {
+	if res != "ok" || uint64(len(pre.All)+1) > cfg.GlobalSlots+cfg.GlobalQueue || len(pre.occupants()[key{t.S, t.N}]) > 0 {
+		return nil
+	}
+	var out []clauseFail
+	for _, f := range post.checkLimits(cfg) {
+		if f.clause == "limit-account-queue" && !strings.Contains(f.detail, fmt.Sprintf("account %d ", t.S)) {
+			continue // other accounts' queues are only capped when they are promoted themselves
+		}
+		f.clause += "-after-add"
+		out = append(out, f)
+	}
+	return out
+}
+
 // bumpOK is txList.Add's acceptance rule for replacing old by new.
 func bumpOK(old, new ATx, bump uint64) bool {
 	return new.P > old.P && new.P >= old.P*(100+bump)/100
